@@ -38,6 +38,9 @@ type Profile struct {
 	StrictRefs     bool // refuse manifests whose config/layers/manifests are absent (as real registries do)
 	EmptyLastPage  bool // when the item count is a multiple of the page size, send a Link to a final empty page
 	ReferrersPaged bool // paginate the referrers response
+	// Referrers404Code is the error code in the body of the 404 a registry
+	// without the Referrers API answers with ("": bare 404).
+	Referrers404Code string
 }
 
 // FullProfile is a registry with every optional capability.
@@ -721,7 +724,7 @@ func (g *Registry) handle(rec *Record, r *http.Request, body []byte) *Response {
 		}
 	case "referrers":
 		if !p.ReferrersAPI {
-			return status(404, "")
+			return status(404, p.Referrers404Code)
 		}
 		repo := g.repo(rec.Repo)
 		target := digest.Digest(rec.Ref)
